@@ -307,6 +307,8 @@ class SX:
 
     @staticmethod
     def fv(v, conv, spec):
+        if type(v).__name__ == 'MPath' and conv in (-1, ord('s')) and spec in (None, ''):
+            v = v.__str__()               # a model path with a symbolic component renders as a symbolic string
         if isinstance(v, Sym):
             if spec not in (None, ''):
                 raise SxUnsupported('format spec on symbolic value')
